@@ -348,7 +348,9 @@ def targets(ctx):
         "sh_dict.proto": 'syntax = "proto3";\npackage sh_dict;\nmessage Shadow { map<int32, int32> dict = 6; map<int32, int32> d2 = 7; int32 mk20004 = 20004; }\n',
     }
 
-    from ._shapes import SINGLE_CONSTRUCT
+    from ._shapes import ALIAS_PROBE, SINGLE_CONSTRUCT_NO_ALIAS as SINGLE_CONSTRUCT
+
+    SHADOW_PROTO["sh_child_package_alias.proto"] = ALIAS_PROBE  # (several files)
 
     def fixed_cases():
         yield {"fixed": "all_cardinalities_service", "vseeds": [1, 2, 3, 4, 5, 6]}
@@ -359,7 +361,7 @@ def targets(ctx):
         if case["fixed"].startswith("probe_"):
             allf = []
             for fname, text in SHADOW_PROTO.items():
-                fails, results = run_variants({fname: text}, case["vseeds"])
+                fails, results = run_variants(text if isinstance(text, dict) else {fname: text}, case["vseeds"])
                 for f in fails or []:
                     f.sig = f"probe|field_named_like_annotation_type|{fname[3:-6]}|" + f.sig
                 allf += fails or []
